@@ -2,7 +2,7 @@
    run) are inside the proved envelopes, so the ring theorems hold for every modulus the rings advertise. *)
 From Coq Require Import ZArith Bool Lia List.
 From C03 Require Import Model ModelF Params ProofsBase ProofsInt ProofsIntA ProofsIntB ProofsIntC ProofsIntR ProofsIntM ProofsIntX
-  ProofsIntY ProofsIntZ ProofsIntInv ProofsRU ProofsFM ProofsBarrett ProofsBarrettM ProofsBarrettS ProofsBarrettU.
+  ProofsIntY ProofsIntZ ProofsIntInv ProofsRU ProofsFM ProofsBarrett ProofsBarrettM ProofsBarrettS ProofsBarrettU ProofsPrecomp ProofsMisc.
 Import ListNotations.
 Local Open Scope Z_scope.
 
@@ -160,3 +160,19 @@ Qed.
 (* ---- mul_precomp_p (Barrett): every instantiated width pair, inside the asserted precondition of precomp_p *)
 Lemma mulpp_exact sb sg cb p : Mulpp_stmt sb sg cb p.
 Proof. destruct sg; [ apply mulpp_exact_signed | apply mulpp_exact_unsigned ]. Qed.
+
+(* ---- isUnit of the RecInt rings at the advertised bounds *)
+Definition RU_isUnit_adv_stmt := forall w dbl mn mx p, In (w, dbl, mn, mx) advertised_ru -> mn <= p <= mx -> forall a, canon p a ->
+  (forall fuel u, ru_isUnit w p fuel a = Some u -> (u = true <-> Z.gcd a p = 1)) /\
+  (exists fuel, ru_isUnit w p fuel a <> None).
+Definition ru_row_ok32 (row : Z * bool * Z * Z) : bool := let '(w, _, _, _) := row in 32 <=? w.
+Lemma advertised_ru_ok32 : forallb ru_row_ok32 advertised_ru = true.
+Proof. vm_compute. reflexivity. Qed.
+Lemma ru_isUnit_adv : RU_isUnit_adv_stmt.
+Proof.
+  intros w dbl mn mx p HIn Hp. pose proof (proj1 (forallb_forall _ _) advertised_ru_ok _ HIn) as H. unfold ru_row_ok in H.
+  pose proof (proj1 (forallb_forall _ _) advertised_ru_ok32 _ HIn) as H32. cbn in H32. apply Z.leb_le in H32.
+  rewrite !andb_true_iff in H. destruct H as [[[Hw He] Hmn] Hmx].
+  apply Z.ltb_lt in Hw. apply Z.eqb_eq in He. apply Z.leb_le in Hmn, Hmx.
+  apply (ru_isUnit_exact w dbl p); [ repeat split; try lia | exact H32 ].
+Qed.
